@@ -39,6 +39,7 @@ impl Prop for C06 {
             "Latin-1 text is drawn from U+0020-7E and U+00A0-FF (where Latin-1 and Windows-1252 agree); colour components are 1..=255 and never ESC".into(),
             "num_players in the server info is >= the number of players listed (the client stops reading once it has that many)".into(),
             "a string's declared length equals its content (+ terminator); every datagram is <= 1024 bytes".into(),
+            "no (key, value) pair is repeated exactly (datagrams carry no sequence number: byte-identical datagrams are indistinguishable from one datagram delivered twice, which the client ignores)".into(),
         ]
     }
 
